@@ -11,7 +11,9 @@ NAME_POOL = ['x', 'x1', 'xx', 'x_1', 'x_000', 'e5', 'E', 'e', 'j', 'J', 'a', 'b'
              'LAG_x', 'LAG_y', 'HH__F', 'HH__F1', 'H__F', '_12__F', '_1__F', '_12__F1', 'b1', 'o17', 'xF', 'F', 'k',
              't', 'X', 'x0', 'l', 'O', 'b101', 'xE', 'e_5', 'E3',
              # ordinary names that float() would accept as numbers
-             'inf', 'nan', 'infinity', 'Infinity', 'NaN', 'INF']
+             'inf', 'nan', 'infinity', 'Infinity', 'NaN', 'INF',
+             # identifiers are not ASCII-only
+             '\u03b1', '\u03b11', '\u03b1\u03b2', '\u03b8', '\u0394', '\u03b2', '\u00e9pargne']
 
 FUNCS = ['max', 'min', 'abs', 'sqrt', 'exp', 'log', 'float']
 
